@@ -19,6 +19,7 @@ func dispatchMore(cmd string, r *prng, count int, extra string) bool {
 			emit(runBoxSeq(newPRNG(r.next()), i))
 		}
 	case "disc-step":
+		emit(runDiscWitness(99999))
 		for i := 0; i < count && discBadOps < 4; i++ {
 			emit(runDiscStep(newPRNG(r.next()), i))
 		}
